@@ -289,8 +289,111 @@ def run_loopback(acc):
         raise world.HarnessError("fake datagram transport disagrees with real sockets: %r" % disagreements[:2])
 
 
+CLIENT_HOWS = ("default", "configure", "configure+credentials", "reconfigure", "reconfigure+credentials", "configure-then-credentials")
+
+
+def run_client_family(acc):
+    """the sender as the Client uses it: the retry budget and the timeout that
+    were configured - in whichever way - are the ones the default UDP sender
+    runs with.  One execution per (way of configuring, retries, timeout,
+    attempt that is answered or none)."""
+    from puresnmp import Client
+    from puresnmp.credentials import V1, V2C
+
+    from ..ref import agent as ragent
+
+    OID = (1, 3, 6, 1, 2, 1, 1, 5, 0)
+    for how in CLIENT_HOWS:
+        for retries, timeout in ((2, 0.5), (3, 2), (1, 0.25)):
+            if how == "default":
+                retries, timeout = 10, 6
+            for answered in (None, 1, retries):
+                CLOCK.reset()
+                loop = VLoop()
+                ag = ragent.Agent({OID: ("str", b"host")})
+                ag.check_community = False
+                sends = []
+
+                def on_sendto(tr, data, sends=sends, answered=answered, ag=ag, loop=loop):
+                    sends.append((CLOCK.mono, bytes(data)))
+                    if answered is not None and len(sends) == answered:
+                        reply = ag.handle(bytes(data))
+                        loop.call_at(CLOCK.mono + timeout / 4, lambda: tr.inject_datagram(reply))
+
+                loop.on_sendto = on_sendto
+                t0 = CLOCK.mono
+                result = exc = None
+                with loop.running():
+                    client = Client("192.0.2.1", V2C("public"))
+                    cm = None
+                    if how == "configure":
+                        client.configure(retries=retries, timeout=timeout)
+                    elif how == "configure+credentials":
+                        client.configure(credentials=V1("public"), retries=retries, timeout=timeout)
+                    elif how == "configure-then-credentials":
+                        client.configure(retries=retries, timeout=timeout)
+                        client.configure(credentials=V1("public"))
+                    elif how == "reconfigure":
+                        cm = client.reconfigure(retries=retries, timeout=timeout)
+                    elif how == "reconfigure+credentials":
+                        cm = client.reconfigure(credentials=V1("public"), retries=retries, timeout=timeout)
+                    if cm is not None:
+                        cm.__enter__()
+                    task = loop.create_task(client.get(world.OID(OID)))
+                    done_at = [None]
+                    task.add_done_callback(lambda _t, done_at=done_at: done_at.__setitem__(0, CLOCK.mono - t0))
+                    try:
+                        loop.run_until_idle(horizon=t0 + (retries + 2) * timeout + 10)
+                    except Stalled:
+                        pass
+                    if task.done() and not task.cancelled():
+                        exc = task.exception()
+                        result = None if exc is not None else world.norm_value(task.result())
+                    else:
+                        task.cancel()
+                        try:
+                            loop.run_until_idle(horizon=CLOCK.mono + 1)
+                        except Stalled:
+                            pass
+                    if cm is not None:
+                        cm.__exit__(None, None, None)
+                    unclosed = [i for i, tr in enumerate(loop.transports) if not tr.close_calls]
+                del task
+                gc.collect()
+                loop.close()
+                facts = {"family": "through the Client", "configured_by": how, "retries": retries, "timeout": timeout, "answered_attempt": answered,
+                         "sends": len(sends), "done_at": done_at[0], "exception": type(exc).__name__ if exc else None}
+                violations = []
+
+                def bad(kind, **d):
+                    violations.append({"kind": kind, "detail": {**facts, **d}, "facts": facts, "case": {"client_family": True}})
+
+                if answered is None:
+                    if len(sends) != retries:
+                        bad("client-sender-ran-with-another-retry-budget")
+                    elif type(exc).__name__ != "Timeout":
+                        bad("timeout-not-raised")
+                    elif done_at[0] != retries * timeout:
+                        bad("timeout-at-wrong-instant", expected_at=retries * timeout)
+                else:
+                    want_at = (answered - 1) * timeout + timeout / 4
+                    if exc is not None or result != ("str", b"host"):
+                        bad("reply-in-time-not-returned-at-once")
+                    elif len(sends) != answered or done_at[0] != want_at:
+                        bad("retransmission-at-wrong-instant", expected_at=want_at)
+                if len({d for _, d in sends}) > 1:
+                    bad("retransmission-differs-from-request")
+                if unclosed:
+                    bad("transport-left-open", unclosed_transports=unclosed)
+                acc.count(evaluations=1, nontrivial=1, states=1, transitions=len(sends), traces=1)
+                acc.outcome("client/%s" % ("ok" if not violations else violations[0]["kind"]))
+                for v in violations[:1]:
+                    acc.violation(v)
+    acc.sample({"family": "send_udp as the Client's default sender", "configured_by": list(CLIENT_HOWS)})
+
+
 def shards(tier):
-    out = []
+    out = [{"tier": tier, "client_family": True}]
     if tier == "thorough":
         out.append({"tier": tier, "loopback": True})
     for r, t in configs(tier):
@@ -323,6 +426,9 @@ def run_shard(params, acc):
     if params.get("loopback"):
         run_loopback(acc)
         return
+    if params.get("client_family"):
+        run_client_family(acc)
+        return
     run = make_run(params["retries"], params["timeout"])
 
     def on_exec(ctx, obs, violations):
@@ -350,6 +456,17 @@ def run_shard(params, acc):
 
 
 def replay(case):
+    if case.get("client_family"):
+        class A:
+            def __init__(self):
+                self.v = []
+            def count(self, **k): pass
+            def outcome(self, *a, **k): pass
+            def sample(self, *a, **k): pass
+            def violation(self, v): self.v.append(v)
+        a = A()
+        run_client_family(a)
+        return a.v
     run = make_run(case["retries"], case["timeout"])
     _, obs, violations = explore.run_once(run, case["choices"])
     return violations
